@@ -3,7 +3,10 @@ import Model.KNTable
 /-!
 From the count table to the record hypotheses: `TableWF cfg full → TableOK (specCtx cfg full discs)`
 (`tableOK_of_wf`, order ≥ 2), hence `normalised_table`: the model `Spec.estimateFrom` returns
-for a well-formed table is normalised in every context.
+for a well-formed table is normalised in every context.  `tableOK1` / `normalised_table1` are the
+same for the order-1 model (`Spec.ents1`, `TableWF1`).  `exTable_wf…` show that `TableWF` holds
+(by `decide` of the checker `tableWFb`) for the real trigram table of a three-sentence corpus.
+Everything used about `List.eraseDups` is in section 0.
 -/
 namespace KV.KN.Norm
 
@@ -636,7 +639,7 @@ include hw
 
 theorem esAt1_spec (n : Nat) : (specCtx cfg full discs).esAt n =
     if n ≤ 1 then ents1 cfg full else [] := by
-  have h1 : cfg.order ≤ 1 := by rw [hw.order1]; exact Nat.le_refl 1
+  have h1 : cfg.order ≤ 1 := by rw [hw.order1]
   unfold Spec.Ctx.esAt specCtx specRecords
   simp only [if_pos h1]
   split
@@ -703,15 +706,15 @@ theorem tableOK1 : TableOK (specCtx cfg full discs) := by
     intro e he _ hs
     obtain ⟨r, hr, rfl⟩ := (mem_esAt1 hw discs).mp he
     rcases hr with rfl | rfl | hr
-    · exact absurd hs (by decide)
-    · exact absurd hs (by decide)
+    · exact absurd (show ([unk] : Gram).all isSpecial = false from hs) (by decide)
+    · exact absurd (show ([bos] : Gram).all isSpecial = false from hs) (by decide)
     · exact hw.pos r hr
   have hhi : ∀ n, 1 ≤ n → (specCtx cfg full discs).esAt (n + 1) = [] := by
     intro n h1
     rw [esAt1_spec hw, if_neg (by omega)]
   exact {
     esLen := by
-      have h1 : cfg.order ≤ 1 := by rw [hw.order1]; exact Nat.le_refl 1
+      have h1 : cfg.order ≤ 1 := by rw [hw.order1]
       show (specRecords cfg full).length ≤ cfg.order
       unfold specRecords
       rw [if_pos h1, hw.order1]; exact Nat.le_refl 1
